@@ -101,6 +101,35 @@ func c17Kind[K any](res *ev.Result, unit string, k *kinds.Kind[K], seed uint64, 
 		}
 	}
 	emptyBase := liveHeap()
+	// every query method once on an empty tree of this kind (a path of its own in the
+	// library: bookkeeping that is only unbalanced there shows up in the phases below)
+	{
+		e := k.New()
+		var z K
+		e.Search(keys[0])
+		e.Delete(keys[0])
+		e.Minimum()
+		e.Maximum()
+		e.Size()
+		for range e.All() {
+		}
+		for range e.Backward() {
+		}
+		for range e.TopK(3) {
+		}
+		for range e.BottomK(3) {
+		}
+		if k.HasRange || k.Family == "collation" {
+			for range e.Range(keys[0], keys[1]) {
+			}
+		}
+		if k.HasPrefix {
+			for range e.Prefix(keys[0]) {
+			}
+			for range e.Prefix(z) {
+			}
+		}
+	}
 	t := k.New()
 	afterNew := liveHeap()
 	for i, key := range keys {
@@ -188,6 +217,52 @@ func c17Kind[K any](res *ev.Result, unit string, k *kinds.Kind[K], seed uint64, 
 		ok = false
 		res.Violate(ev.Violation{Prop: "C17", Kind: k.Name, Unit: unit,
 			What: "goroutines accumulate with the number of queries", Expected: fmt.Sprint(goroutines0), Observed: fmt.Sprint(g)})
+	}
+	if ok && k.Fan != nil {
+		// dense growth then removal: many 256-way nodes are built and retired; what stays
+		// alive afterwards must not depend on that peak
+		before := liveHeap()
+		var fams [][]K
+		total := 0
+		for f := 0; f < 40; f++ {
+			fam := k.Fan(r)
+			kept := fam[:0:0]
+			for _, c := range fam {
+				if seen[k.ID(c)] {
+					continue
+				}
+				if okk, _ := k.Storable(scratchModel, c); !okk {
+					continue
+				}
+				seen[k.ID(c)] = true
+				scratchModel.Put(c, 0)
+				t.Insert(k.Clone(c), 1)
+				kept = append(kept, c)
+			}
+			fams = append(fams, kept)
+			total += len(kept)
+		}
+		peak := liveHeap()
+		for _, fam := range fams {
+			for _, c := range fam {
+				t.Delete(c)
+				scratchModel.Del(c)
+				delete(seen, k.ID(c))
+			}
+		}
+		fams = nil
+		after := liveHeap()
+		res.Evaluations += int64(2 * total)
+		res.Count("ops_dense_grow_then_remove", int64(2*total))
+		res.Max("max_heap_delta_bytes_dense_grow_then_remove", int64(after)-int64(before))
+		res.Max("max_heap_peak_bytes_dense_grow", int64(peak)-int64(before))
+		if d := int64(after) - int64(before); d > int64(c17EmptySlack) {
+			ok = false
+			res.Violate(ev.Violation{Prop: "C17", Kind: k.Name, Unit: unit,
+				What:     "memory retained after a dense block of keys was inserted and removed again depends on the peak, not on the content",
+				Expected: fmt.Sprintf("<= %d bytes above the reading before the block (%d keys inserted and deleted, peak +%d bytes)", c17EmptySlack, total, int64(peak)-int64(before)),
+				Observed: fmt.Sprintf("%d bytes", d)})
+		}
 	}
 	if ok {
 		// delete everything: the tree retains no more than a small constant
